@@ -2861,9 +2861,14 @@ def _bitparallel(fs):
     return [ev(f) & T for f in fs], T
 
 
+SET_UNIVERSE = None      # a rule whose value-set subject has a known range (x % 4) sets it for the comparison it makes
+
+
 def _equiv(f1, f2):
     if repr(_sort_formula(f1)) == repr(_sort_formula(f2)):
         return True
+    if SET_UNIVERSE is not None and ("'set'" in repr(f1) or "'set'" in repr(f2)):
+        f1, f2 = gi.f_and(f1, ("set", SET_UNIVERSE)), gi.f_and(f2, ("set", SET_UNIVERSE))
     try:
         r = _bitparallel([f1, f2])
         if r is not None:
@@ -2995,6 +3000,49 @@ def new_state(code, ref, func_name="", ref_tree=None):
         known = _attrs_written_in(ref_tree)
         new = {loc for loc in new if loc.replace("[]", "").rsplit(".", 1)[-1] not in known}
     return sorted(new)
+
+
+def stale_memo(sm, new_locs):
+    """of the locations a function newly keeps between calls, those that can go STALE by the look of the code: some exit returns
+    what is stored there under a condition that reads nothing of the object's state (it tests only that the memo is filled, or
+    looks a key made of the arguments up), while the value that was stored was computed FROM the object's state.  A memo whose
+    hit condition compares with the current state (a stamp, the key it was computed from, an identity test) is not judged here."""
+    import re
+    out = []
+    loc_attrs = {l.replace("[]", "") for l in new_locs}
+
+    def state_reads(text, exclude):
+        reads = set()
+        for m in re.finditer(r"(?<![\w.])([A-Za-z_]\w*(?:\.[A-Za-z_]\w*)+)", text):
+            path = m.group(1)
+            root = path.split(".")[0]
+            if re.fullmatch(r"_v\d+|_b\d+(_\d+)?", root) or root in ("struct", "hashlib", "itertools", "functools", "os", "io", "binascii", "re", "math"):
+                continue
+            if any(path == e or path.startswith(e + ".") for e in exclude):
+                continue
+            # a method called on the memo itself (self._memo.get) is not a read of other state
+            reads.add(path)
+        return reads
+    for loc in sorted(loc_attrs):
+        stores = [it for it in sm.items if it.kind == "effect" and (it.head.startswith(loc + " = ") or it.head.startswith(loc + "["))]
+        if not stores:
+            continue
+        computed_from = set()
+        for it in stores:
+            v = it.head.split(" = ", 1)[1] if " = " in it.head else ""
+            v = v.split(" in loop")[0].split(" after ")[0]
+            computed_from |= state_reads(v, {loc})
+        if not computed_from:
+            continue
+        from .ct import fmt_formula
+        for it in sm.items:
+            if it.kind != "exit" or not it.head.startswith("return ") or loc not in it.head:
+                continue
+            cond_text = fmt_formula(it.cond) if it.cond not in (True, False) else ""
+            if not state_reads(cond_text, {loc}):
+                out.append("%s is returned when `%s`, which reads nothing of the object's state, and was computed from %s" % (loc, cond_text[:80] or "always", ", ".join(sorted(computed_from))[:80]))
+                break
+    return out
 
 
 def compare_summaries(code, ref, near=0.7, _renamed=False):
@@ -3177,13 +3225,13 @@ def _condition_mutation(f_code, f_ref, all_code=None, all_ref=None, extra=()):
                 print("REFUTE exchange", r_, "|", only_b, "|", only_a)
             if r_ is True:
                 return True
-    if POLICY not in ("strict", "cautious") and only_a and not only_b and extra and all_code is not None and all_ref is not None \
+    if POLICY in ("round5", "added") and only_a and not only_b and extra and all_code is not None and all_ref is not None \
             and not (set(only_a) & all_ref) and not (all_ref - all_code):
         # tests added, new to the function, none lost, AND the function has a way out or an effect the reference does not
         # have: the new tests select a new outcome (a fast path, a cache hit, a new refusal kind).  A defensive check
         # that can never fire routes to an outcome that was already there, and is no verdict (below).
         return True
-    if POLICY not in ("strict", "cautious") and not only_a and only_b and not any(k2[0] == "effect" and k2[1].startswith("call ") for k2 in extra):
+    if POLICY in ("round5", "dropped") and not only_a and only_b and not any(k2[0] == "effect" and k2[1].startswith("call ") for k2 in extra):
         # tests dropped: a case is no longer checked -- provided the function as a whole lost them (they did not move to
         # another component) and gained none (it does not test the same thing another way).  Tests ADDED are no verdict:
         # a defensive check that can never fire reads exactly like a new refusal.
@@ -3450,10 +3498,15 @@ def reference_status(ctx, fi, ref_source, ref_names, int_names=None, leaf=None, 
                 details = [("source", "token", " , ".join(a for a, _b in sm_), " , ".join(b for _a, b in sm_), 1.0)] + list(details)
         if status != "same":
             ns = new_state(s_code, s_ref, getattr(fi.node, "name", ""), tree)
-            if ns:
-                # whatever else changed: the function now keeps something between calls that the reviewed one did not
+            stale = stale_memo(s_code, ns) if ns else []
+            if stale:
+                # whatever else changed: the function now keeps something between calls that the reviewed one did not, and hands
+                # it out again without looking at the state it was computed from
                 status = "differs"
-                details = [("state", "effect", "(the reviewed function writes nothing there)", "writes %s" % ", ".join(ns), 1.0)] + list(details)
+                details = [("state", "effect", "(the reviewed function keeps nothing there)", "keeps %s" % "; ".join(stale), 1.0)] + list(details)
+            elif ns and status == "same":
+                status = "near"
+                details = [("extra", "effect", None, "writes %s" % ", ".join(ns), 0.0)]
         rank = {"same": 0, "differs": 1, "near": 2, "unrecognised": 3}[status]
         if best is None or (rank, len(details)) < best[0]:
             best = ((rank, len(details)), status, details, s_ref, ref_name)
@@ -3476,6 +3529,48 @@ def against_reference(ctx, fi, ref_source, ref_names, key, int_names=None, leaf=
     ctx.undecided(key, where, "%s is organised differently from the reference transcription (%d components differ, e.g. %s); this rule gives no verdict on it"
                   % (fi.qualname, len(details), "; ".join("%s %s" % (d[0], (d[2] or d[3] or "")[:80]) for d in details[:2])))
     return None
+
+
+def f_subst(f, atom, val):
+    """the formula with one opaque atom replaced by a truth value"""
+    if f in (True, False):
+        return f
+    if f[0] == "op":
+        return val if f[1] == atom else f
+    if f[0] == "not":
+        return gi.f_not(f_subst(f[1], atom, val))
+    if f[0] == "and":
+        return gi.f_and(*[f_subst(x, atom, val) for x in f[1]])
+    if f[0] == "or":
+        return gi.f_or(*[f_subst(x, atom, val) for x in f[1]])
+    return f
+
+
+def guard_present(w, exit_pred, atom_pred, positive=True):
+    """an atom of the wanted kind pushes the function towards an exit of the wanted kind (or a raise): with everything else
+    equal, the atom holding (positive) / failing (not positive) never turns a refusal into an acceptance and sometimes turns an
+    acceptance into a refusal -- `the function refuses case X`, whatever else it tests and however the guard is spelled or
+    combined (alone, in a disjunction, behind an isinstance test)"""
+    refuse = exits_formula(w, lambda e: exit_pred(e) or e.kind == "raise")
+    if refuse in (True, False):
+        return False
+    for o in sorted({o for o in gi.f_opaques(refuse) if isinstance(o, str) and atom_pred(o)}):
+        hi, lo = f_subst(refuse, o, positive), f_subst(refuse, o, not positive)
+        if entails(lo, hi) and not _equiv(lo, hi):
+            return True
+    return False
+
+
+def exit_under(w, exit_pred, atom_pred, positive=True):
+    """some exit of the wanted kind is taken only when an atom of the wanted kind holds / fails (the weaker companion of
+    guard_present: the test exists and leads there, possibly together with other tests)"""
+    for e in w.exits:
+        if not exit_pred(e) or e.cond in (True, False):
+            continue
+        for o in gi.f_opaques(e.cond):
+            if isinstance(o, str) and atom_pred(o) and entails(e.cond, ("op", o) if positive else ("not", ("op", o))):
+                return True
+    return False
 
 
 # ====================================================================== set / path helpers for rules
